@@ -182,6 +182,12 @@ impl AcronymSet {
         let mut i = start_pos;
 
         while i < bytes.len() {
+            // The walk is byte by byte: only an ASCII byte is a character of its own. A byte of a
+            // multi-byte character must not be taken for the Latin-1 character with the same code
+            // (0xC3 for 'Ã'), or the match would end inside a character
+            if !bytes[i].is_ascii() {
+                break;
+            }
             let ch = bytes[i] as char;
 
             // Check both uppercase and lowercase versions
